@@ -248,7 +248,7 @@ fn emit_defs(out: &mut Out) {
             200..=299 => xonly_key(id).serialize().to_vec(),
             _ => dummy33.clone(),
         };
-        let sort: Vec<u8> = match id { 0..=199 => full_key(id).inner.serialize().to_vec(), _ => ser.clone() };
+        let sort: Vec<u8> = match id { 0..=199 => crate::ast::bip67_sort(&full_key(id)), _ => ser.clone() };
         let pkh = hash160::Hash::hash(&ser);
         out.line(&format!("D key {} {} {} {}", id, hex(&ser), hex(&sort), hex(pkh.as_byte_array())), "ok");
     }
@@ -443,17 +443,12 @@ fn wrong_kind(ctx: CtxK, id: u32) -> bool {
 }
 /// rules the harness EXPECTS may fail for this input (only used to keep the number of known
 /// failing judge lines bounded; the judge still evaluates every other rule on every input).
-/// "top": since the F5 fix only `TapTree::leaf` + `Tr::new` still accept a non-B top level; the
-/// wsh/sh/bare entry points reject it, so they emit no line for such inputs at all.
-fn suspects(ctx: CtxK, n: &Node, base_b: bool) -> Vec<&'static str> {
+/// After the fixes 8a19a019 / 4cd8ebfa / a3413640 / 2d0df974 / f6816493 the only class left is
+/// "cond": `Sh::new` / `sh(..)` deliberately accept `d:` / `or_i` (F13).  Non-B tops, wrong key
+/// kinds, wrong multisig flavour are judged on EVERY accepted input again.
+fn suspects(ctx: CtxK, n: &Node, _base_b: bool) -> Vec<&'static str> {
     let mut v = vec![];
-    if !base_b { v.push("top"); }
     if matches!(ctx, CtxK::Bare | CtxK::Legacy) && contains(n, &|x| matches!(x, Node::DupIf(_) | Node::OrI(..))) { v.push("cond"); }
-    let mut ks = vec![]; n.keys(&mut ks);
-    if ks.iter().any(|k| wrong_kind(ctx, *k)) { v.push("keys"); }
-    let multi = contains(n, &|x| matches!(x, Node::Multi(..) | Node::SortedMulti(..)));
-    let multi_a = contains(n, &|x| matches!(x, Node::MultiA(..) | Node::SortedMultiA(..)));
-    if (ctx == CtxK::Tap && multi) || (ctx != CtxK::Tap && multi_a) { v.push("multi"); }
     v
 }
 
@@ -588,10 +583,7 @@ where Ctx::Key: PkOf + miniscript::ToPublicKey {
             out.line(&format!("C accept {} {} {}", entry, cn, wire), v);
             if v == "ok" { judge_accept(out, bud, entry, ctx, n, &wire, base_b); }
             // T4: what the descriptor parser accepts, the miniscript parser with Ctx::CONSENSUS accepts
-            let class = if !base_b && ms.is_some() { "nonB" }
-                else if matches!(ctx, CtxK::Bare | CtxK::Legacy) && contains(n, &|x| matches!(x, Node::DupIf(_) | Node::OrI(..))) { "cond" }
-                else if suspects(ctx, n, true).contains(&"keys") { "keys" }
-                else if ms.as_ref().and_then(|m| m.ext.sat_data.map(|d| m.ext.static_ops + d.max_exec_op_count)).map(|c| c > 201).unwrap_or(false) && ctx != CtxK::Tap { "ops" }
+            let class = if matches!(ctx, CtxK::Bare | CtxK::Legacy) && contains(n, &|x| matches!(x, Node::DupIf(_) | Node::OrI(..))) { "cond" }
                 else { "plain" };
             if class == "plain" || bud.take(format!("t4 {} {}", class, cn)) {
                 out.line(&format!("J t4 {} {} {} {} {}", class, entry, wire, v, okerr_ref(&cons)), "ok");
@@ -766,19 +758,26 @@ fn stress(ctx: CtxK) -> Vec<Node> {
 /* ------------------------------------------------------------------ new_sortedmulti */
 
 fn sortedmulti(out: &mut Out, bud: &mut Budget) {
-    for (k, ids) in [(1usize, vec![0u32, 1]), (2, vec![0, 1, 2]), (1, vec![100, 0]), (1, vec![200, 0]), (1, (0..20).collect::<Vec<u32>>()), (0, vec![0, 1]), (3, vec![0, 1]), (1, (0..21).collect::<Vec<u32>>())] {
+    // permanent regression cases for F15: uncompressed / x-only keys, 20 keys (684 bytes > 520 in sh)
+    for (k, ids) in [(1usize, vec![0u32, 1]), (2, vec![0, 1, 2]), (1, vec![100, 0]), (1, vec![200, 0]), (1, (0..20).collect::<Vec<u32>>()), (1, (0..15).collect::<Vec<u32>>()), (0, vec![0, 1]), (3, vec![0, 1]), (1, (0..21).collect::<Vec<u32>>())] {
         let keys: Vec<Dpk> = ids.iter().map(|i| Dpk::of(*i).unwrap()).collect();
         let node = Node::SortedMulti(k, ids.clone());
         let wire = node.wire();
+        let idstr = ids.iter().map(|i| i.to_string()).collect::<Vec<_>>().join(",");
         let th = guard(|| Threshold::<Dpk, 20>::new(k, keys.clone()));
-        let th = match th { Some(Ok(t)) => t, _ => { out.line(&format!("C sortedmulti-new {} {}", k, ids.len()), "ERR"); continue; } };
-        out.line(&format!("C sortedmulti-new {} {}", k, ids.len()), "ok");
+        let th = match th { Some(Ok(t)) => Some(t), _ => None };
+        let mk = |f: &dyn Fn(Threshold<Dpk, 20>) -> bool| -> &'static str {
+            match &th { None => "ERR", Some(t) => match guard(|| f(t.clone())) { None => "PANIC", Some(true) => "ok", Some(false) => "ERR" } }
+        };
         for (entry, ctx, v) in [
-            ("sortedmulti/Wsh::new_sortedmulti", CtxK::Segwitv0, okerr(guard(|| Wsh::new_sortedmulti(th.clone())))),
-            ("sortedmulti/Sh::new_sortedmulti", CtxK::Legacy, okerr(guard(|| Sh::new_sortedmulti(th.clone())))),
-            ("sortedmulti/Sh::new_wsh_sortedmulti", CtxK::Segwitv0, okerr(guard(|| Sh::new_wsh_sortedmulti(th.clone())))),
-            ("sortedmulti/Descriptor::new_wsh_sortedmulti", CtxK::Segwitv0, okerr(guard(|| Descriptor::new_wsh_sortedmulti(th.clone())))),
+            ("sortedmulti/Wsh::new_sortedmulti", CtxK::Segwitv0, mk(&|t| Wsh::new_sortedmulti(t).is_ok())),
+            ("sortedmulti/Sh::new_sortedmulti", CtxK::Legacy, mk(&|t| Sh::new_sortedmulti(t).is_ok())),
+            ("sortedmulti/Sh::new_wsh_sortedmulti", CtxK::Segwitv0, mk(&|t| Sh::new_wsh_sortedmulti(t).is_ok())),
+            ("sortedmulti/Descriptor::new_wsh_sortedmulti", CtxK::Segwitv0, mk(&|t| Descriptor::new_wsh_sortedmulti(t).is_ok())),
+            ("sortedmulti/Descriptor::new_sh_sortedmulti", CtxK::Legacy, mk(&|t| Descriptor::new_sh_sortedmulti(t).is_ok())),
+            ("sortedmulti/Descriptor::new_sh_wsh_sortedmulti", CtxK::Segwitv0, mk(&|t| Descriptor::new_sh_wsh_sortedmulti(t).is_ok())),
         ] {
+            out.line(&format!("C sortedmulti-new {} {} {} {}", ctx.name(), k, idstr, entry), v);
             if v == "ok" { judge_accept(out, bud, entry, ctx, &node, &wire, true); } else { out.count("sortedmulti-rejected"); }
         }
     }
